@@ -170,6 +170,16 @@ def load_known():
     return out
 
 
+_WITNESS_CACHE = {}
+
+
+def _witness_set(name):
+    if name not in _WITNESS_CACHE:
+        p = os.path.join(VERIF, name)
+        _WITNESS_CACHE[name] = set(l.strip() for l in open(p) if l.strip() and not l.startswith("#")) if os.path.exists(p) else None
+    return _WITNESS_CACHE[name]
+
+
 def match_known(prop, v, known):
     """A violation matches a *known* entry only if property, site and class agree and, where the entry
     carries a witness (exact case string or regex prefixed with 're:'), the case agrees too."""
@@ -180,6 +190,12 @@ def match_known(prop, v, known):
             continue
         if k.get("class") and not re.fullmatch(k["class"], v.get("class", "")):
             continue
+        wf = k.get("witness_file")
+        if wf:
+            # the finding is identified by the specific inputs that fail: sha1 prefixes of the case strings, one per line,
+            # in a file committed next to known_findings.txt (never written by a check)
+            if _witness_set(wf) is None or hashlib.sha1(v.get("case", "").encode()).hexdigest()[:16] not in _witness_set(wf):
+                continue
         w = k.get("witness")
         if w:
             if w.startswith("re:"):
@@ -224,7 +240,8 @@ class Check:
     def remaining(self, floor=5.0):
         if self.deadline is None:
             return None
-        return max(floor, self.deadline - (time.time() - getattr(self, "t_explore", self.t0)))
+        # VERIF_DEADLINE_SCALE: maintenance runs (e.g. regenerating the witness list of a known finding) must not be capped
+        return max(floor, self.deadline * float(os.environ.get("VERIF_DEADLINE_SCALE", "1")) - (time.time() - getattr(self, "t_explore", self.t0)))
 
     def add_run(self, r, bound, classes=None, replay=None):
         """Merge one harness summary. classes: only violations whose class is in this set belong to this
@@ -258,6 +275,10 @@ class Check:
 
     def finish(self):
         known = load_known()
+        if os.environ.get("VERIF_DUMP_VIOLATIONS"):
+            with open(os.environ["VERIF_DUMP_VIOLATIONS"], "a") as df:
+                for v in self.violations:
+                    df.write(json.dumps({"site": v.get("site"), "class": v.get("class"), "case": v.get("case")}) + "\n")
         wall = time.time() - self.t0
         unlisted, matched = [], {}
         for v in self.violations:
